@@ -22,12 +22,12 @@ MANIFEST = dict(
         design="5/C08")
 
 CFG = {
-    "quick":    dict(mc="MC_ParseMon.cfg", gen="Gen_ConfText.cfg", scan="Gen_ConfScan.cfg", nbase=250, nmut=6, nrand=150),
-    "thorough": dict(mc="MC_ParseMon_t.cfg", gen="Gen_ConfText_t.cfg", scan="Gen_ConfScan_t.cfg", nbase=2500, nmut=10, nrand=3000),
+    "quick":    dict(mc="MC_ParseMon.cfg", gen="Gen_ConfText.cfg", names="Gen_ConfText_n.cfg", scan="Gen_ConfScan.cfg", nbase=250, nmut=6, nrand=150),
+    "thorough": dict(mc="MC_ParseMon_t.cfg", gen="Gen_ConfText_t.cfg", names="Gen_ConfText_n.cfg", scan="Gen_ConfScan_t.cfg", nbase=2500, nmut=10, nrand=3000),
 }
 
 FORMATS = [[0]] + [list(x) for x in (b"{*} =;!# `", b"[*] = ", b"[*] = !", b"{*} =;!#", b"[ ] = #", b"%x% = ", b"<x> = ",
-                                     b"{_} = ", b"{_} =;", b"(*)@:,;% '", b"[ ]\t=\t;", b"|x| = ", b"{*}", b"<x", b"{q} = ",
+                                     b"{_} = ", b"{_} =;", b"[ ]   #", b"[_]   #", b"%x%  ;#", b"(*)@:,;% '", b"[ ]\t=\t;", b"|x| = ", b"{*}", b"<x", b"{q} = ",
                                      b"  ", b"\"*\"'=\n#", b"{*} ==", b"[ [ = #", b"{*}}=}")]
 ACCEPTS = [[0], [], list(b"Ef"), list(b"Esnw"), list(b"E"), list(b"Esc"), list(b"ns"), list(b"ENSWBenswb"), list(b"b"), list(b"W"), list(b"F")]
 
@@ -150,6 +150,8 @@ def to_steps(ck, inputs):
         if rng.random() < 0.3:
             a1["refuse"] = rng.randrange(0, 6)
         a2 = dict(arg, pre=rng.choice([0, 0, 1, 2, 3, 4, 4]))
+        if rng.random() < 0.3:                   # the same text parsed into the target once or twice before
+            a2["rep"] = rng.choice([1, 1, 2])
         if text and rng.random() < 0.1:          # the source reports a read error (-1) after some bytes
             a1["fail"] = rng.randrange(len(text))
             a2["fail"] = rng.randrange(len(text))
@@ -181,7 +183,7 @@ def run_and_validate(ck, exe, behs, tag):
                 faults.append((b, i, st, r))
                 break
             events.append({"a": st["a"], "arg": {"b": b, "i": i}, "obs": r["obs"], "_b": b, "_i": i, "_dbg": r.get("dbg")})
-    keys = ("ret", "ev", "fbefore", "ftree", "reads", "len", "net", "netclear")
+    keys = ("ret", "ev", "fbefore", "ftree", "reads", "len", "net", "netclear", "links")
     slim = [{"a": e["a"], "arg": e["arg"], "obs": {k: v for k, v in e["obs"].items() if k in keys}} for e in events]
     vlib.log("trace validation of %d runs ..." % len(slim))
     ok, matched, res = vlib.validate_trace("Trace_ParseMon", slim, cfg="Trace_ParseMon.cfg", tag=tag, xss="1g", timeout=900)
@@ -256,11 +258,12 @@ def run(tier):
     tm = {}
     t0 = time.time()
     # the three TLC jobs are independent: the monitor itself, the documents of ConfText, the hostile option data
-    with concurrent.futures.ThreadPoolExecutor(max_workers=3) as ex:
+    with concurrent.futures.ThreadPoolExecutor(max_workers=4) as ex:
         f1 = ex.submit(c09.tlc_retry, "MC_ParseMon", cfg["mc"], 240, workers=4)
         f2 = ex.submit(c09.tlc_retry, "Gen_ConfText", cfg["gen"], c09.TMO[tier], workers=4, env={"SKIP_SCAN": "1"})
         f3 = ex.submit(c09.tlc_retry, "Gen_ConfScan", cfg["scan"], c09.TMO[tier], workers=2, env={"SKIP_SCAN": "1"})
-        res, gen, scan = f1.result(), f2.result(), f3.result()
+        f4 = ex.submit(c09.tlc_retry, "Gen_ConfText", cfg["names"], c09.TMO[tier], workers=2, env={"SKIP_SCAN": "1"}, tag="Gen_ConfText_n")
+        res, gen, scan, gnam = f1.result(), f2.result(), f3.result(), f4.result()
     tm["tlc_jobs"] = round(time.time() - t0, 1); t0 = time.time()
     # 1. the monitor itself
     ck.add_tlc(res, "exhaustive " + cfg["mc"])
@@ -269,7 +272,13 @@ def run(tier):
     if gen.error or gen.violation:
         raise vlib.MachineryError("case export failed: %s %s" % (gen.error, gen.violation))
     cases = [b[0] for b in vlib.parse_behaviours(gen.out)]
-    inputs = make_inputs(ck, cases, cfg)
+    if gnam.error or gnam.violation:
+        raise vlib.MachineryError("long-name case export failed: %s %s" % (gnam.error, gnam.violation))
+    # names across the allocation steps of the path buffer, in every format family (all of them join the monitored runs)
+    ncases = [b[0] for b in vlib.parse_behaviours(gnam.out)]
+    inputs = make_inputs(ck, cases, cfg) + [(flat(st["arg"]["fmt"]), flat(st["arg"]["acc"]), flat(st["arg"]["text"]), "names")
+                                            for st in ncases]
+    cases = cases + ncases
     behs = to_steps(ck, inputs)
 
     # 2b. every byte string over a hostile alphabet as option data (Gen_ConfScan): these runs join the
@@ -285,7 +294,7 @@ def run(tier):
             scases.append(b[0])
     nscan0 = len(behs)
     behs += [[{"a": "events", "arg": st["arg"], "origin": "scan", "exp": st["exp"]}] for st in scases]
-    ck.cov["transitions"] += gen.generated + scan.generated
+    ck.cov["transitions"] += gen.generated + scan.generated + gnam.generated
     tm["inputs"] = round(time.time() - t0, 1); t0 = time.time()
 
     # 2a. binding A: for the generated documents the specification knows the exact event sequence
